@@ -367,3 +367,80 @@ fn c03_twin_must_fail() {
     assert!(false);
 }
 
+
+// ---------------------------------------------------------------------------------------------------------
+// Group B, the one slice that closes: ADDMOD on operands that are already reduced (a < N, b < N).
+// In that region (a + b) mod N needs no division — it is a + b - N if the 257-bit sum reaches N, else a + b — so the
+// reference stays limb-wise, and ruint's division kernel is provably not needed: it is stubbed by a stand-in that FAILS
+// when reached. The region contains the carry boundary (N > 2^255 with a + b >= 2^256) where a dropped carry shows.
+pub fn stub_div_rem_unreachable<const BITS: usize, const LIMBS: usize>(
+    a: revm_primitives::ruint::Uint<BITS, LIMBS>,
+    b: revm_primitives::ruint::Uint<BITS, LIMBS>,
+) -> (revm_primitives::ruint::Uint<BITS, LIMBS>, revm_primitives::ruint::Uint<BITS, LIMBS>) {
+    assert!(false, "stub domain: division reached although both ADDMOD operands are below the modulus");
+    (a, b)
+}
+
+/// 257-bit sum: (low 256 bits, carry)
+fn r_add_carry(a: W, b: W) -> (W, bool) {
+    let mut o = [0u64; 4];
+    let mut c = 0u128;
+    let mut i = 0;
+    while i < 4 {
+        let s = a[i] as u128 + b[i] as u128 + c;
+        o[i] = s as u64;
+        c = s >> 64;
+        i += 1;
+    }
+    (o, c != 0)
+}
+
+#[kani::proof]
+#[kani::unwind(34)]
+#[kani::stub(revm_primitives::ruint::Uint::div_rem, stub_div_rem_unreachable)]
+fn c03_addmod_reduced_operands() {
+    let (a, b, n, below) = (any_w(), any_w(), any_w(), any_w());
+    kani::assume(r_ult(a, n) && r_ult(b, n)); // implies n != 0
+    let (mut it, depth, gas) = setup(3, 4, a, b, n, below);
+    let mut host = NoHost;
+    arithmetic::addmod::<NoHost>(&mut it, &mut host);
+    let (sum, carry) = r_add_carry(a, b);
+    let want = if carry || !r_ult(sum, n) { r_sub(sum, n) } else { sum };
+    verify(it, depth, gas, 3, 8, below, want);
+}
+
+/// ADDMOD / MULMOD with a zero modulus push zero (no kernel involved: the zero test comes first in ruint).
+#[kani::proof]
+#[kani::unwind(34)]
+#[kani::stub(revm_primitives::ruint::Uint::div_rem, stub_div_rem_unreachable)]
+fn c03_addmod_mulmod_zero_modulus() {
+    let (a, b, below) = (any_w(), any_w(), any_w());
+    let mul: bool = kani::any();
+    let (mut it, depth, gas) = setup(3, 4, a, b, ZERO, below);
+    let mut host = NoHost;
+    if mul {
+        arithmetic::mulmod::<NoHost>(&mut it, &mut host);
+    } else {
+        arithmetic::addmod::<NoHost>(&mut it, &mut host);
+    }
+    verify(it, depth, gas, 3, 8, below, ZERO);
+}
+
+/// DIV / MOD / SDIV / SMOD by zero push zero; the division kernel must not be reached.
+#[kani::proof]
+#[kani::unwind(34)]
+#[kani::stub(revm_primitives::ruint::Uint::div_rem, stub_div_rem_unreachable)]
+fn c03_division_by_zero() {
+    let (a, below) = (any_w(), any_w());
+    let which: u8 = kani::any();
+    kani::assume(which < 4);
+    let (mut it, depth, gas) = setup(2, 3, a, ZERO, ZERO, below);
+    let mut host = NoHost;
+    match which {
+        0 => arithmetic::div::<NoHost>(&mut it, &mut host),
+        1 => arithmetic::rem::<NoHost>(&mut it, &mut host),
+        2 => arithmetic::sdiv::<NoHost>(&mut it, &mut host),
+        _ => arithmetic::smod::<NoHost>(&mut it, &mut host),
+    }
+    verify(it, depth, gas, 2, 5, below, ZERO);
+}
